@@ -57,7 +57,19 @@ Proof.
     + rewrite (apply_durations_no_short flag l w Hg) in H. inversion H. reflexivity.
 Qed.
 
-(* the durations handler as it stands in /repo (error swallowed): success without the complete effect *)
+(* full strength for the tree as it is: the translator read `return err` (this proof stops checking
+   -- and the spec checker's clause `atomic` finds the input -- if the branch swallows the error again) *)
+Lemma durations_error_is_returned : durations_error_returned = true.
+Proof. reflexivity. Qed.
+
+Lemma handler_success_is_full_effect_now : forall ct w w',
+  c_handler durations_error_returned ct w = Ok w' -> w' = spec_effect ct w.
+Proof.
+  intros ct w w' H. apply (handler_success_is_full_effect durations_error_returned ct w w'); [|exact H].
+  left. exact durations_error_is_returned.
+Qed.
+
+(* the durations handler in its earlier `return nil` shape (error swallowed): success without the complete effect *)
 Definition w_demo : world :=
   mkW (mkNP 100 1000000 330000000000000000 300 10 1 1) [(0, mkA true true [10; 11; 31; 32])] [0; 0; 0; 0; 0; 0; 0; 0] [0; 0; 0; 0].
 
